@@ -1,5 +1,8 @@
 /// We expect some [`std::io::Error`] during regular operations:
 /// Kismet relies on the filesystem for concurrency control.
+#[cfg(kismet_verif)]
+#[allow(unused_imports)]
+use kismet_vfs::{filetime, libc, rand, std, tempfile};
 use std::io::Error;
 use std::io::ErrorKind;
 
